@@ -543,7 +543,7 @@ func TestCommandLinesNeverCrash(t *testing.T) {
 		_ = os.Mkdir(filepath.Join(dir, "out"), 0o755)
 		pool := []string{"ok.ebnf", "bad.ebnf", "sem.ebnf", "pat.ebnf", "conf.ebnf", "cyc.ebnf", "empty.ebnf", "bin.ebnf", "noperm.ebnf", "adir", "missing.ebnf", "",
 			"-out", "-out=out", "-out=missing", "-out=ok.ebnf", "-name", "-name=pkg", "-name=9x", "-name=func", "-name=", "-debug", "-verbose", "-help", "-version", "-h", "--help", "-x", "--", "-", "-out=", "-debug=maybe", "-verbose=2",
-			"out", "-name=a/b", "-name=..", "=", "-=", "- -"}
+			"out", "-name=a/b", "-name=..", "=", "-=", "- -", "-out=ok.ebnf/sub", "-out=out/" + strings.Repeat("n", 300), "-out=missing/deeper", "-name=" + strings.Repeat("n", 300)}
 		n := rapid.IntRange(0, 4).Draw(t, "nargs")
 		var args []string
 		for i := 0; i < n; i++ {
